@@ -10,17 +10,17 @@ E2 = "E2 exhaustive domain / configuration / program enumeration on the real cod
 # id -> (built?, engine, technique, level text, level note, design ref)
 T = {
  "C06": (True, "E1", "explicit-state model checking (stateright BFS to fixpoint from every raw state) + bounded-exhaustive DFS over operation histories, on the real ring buffers vs a VecDeque reference",
-         "Every valid raw state (start,len)/first of capacities 1..6 (quick) / 1..8 (thorough) x every operation of the alphabet is executed on the real Bounded/Fixed buffer (window-with-canaries, Vec, Box, array storage) and compared with a VecDeque reference; successor states are re-extracted with into_raw_parts and the search runs to fixpoint, so histories of any length over those capacities are covered. A second, unmerged DFS replays every history to depth 5/6 without any state abstraction.",
-         "Capacities above 8 are not explored (no capacity-specific branch in the code, but that is an argument, not a check). Trusted: rustc/LLVM, VecDeque, stateright BFS, data independence of the buffers for the merged run.", "DESIGN.md §4 C06"),
+         "Every valid raw state (start,len)/first of capacities 1..6 (quick) / 1..12 (thorough) x every operation of the alphabet is executed on the real Bounded/Fixed buffer (window-with-canaries, Vec, Box, array storage) and compared with a VecDeque reference; successor states are re-extracted with into_raw_parts and the search runs to fixpoint, so histories of any length over those capacities are covered. A second, unmerged DFS replays every history to depth 5/6 without any state abstraction.",
+         "Capacities above 12 are not explored (no capacity-specific branch in the code, but that is an argument, not a check). Trusted: rustc/LLVM, VecDeque, stateright BFS, data independence of the buffers for the merged run.", "DESIGN.md §4 C06"),
  "C10": (True, "E2", "bounded-exhaustive enumeration of (format, channel count N, length L) and length pairs on the real slice-view functions, with a counting allocator as observer",
          "For all 14 sample formats x N=1..32 x L=0..3N+2 the shared, mutable and boxed views are executed and compared with index arithmetic, pointer identity and live-heap accounting; in-place slice ops for every length pair up to 5 over 6 frame types (panic-before-modify on mismatch).",
          "L is bounded by 3N+2 (the code has no length-specific branch other than the divisibility test). Trusted: rustc/LLVM, the counting allocator (self-tested at start-up).", "DESIGN.md §4 C10"),
  "C11": (True, "E1", "explicit-state model checking (stateright BFS to fixpoint over detector states, witness-history replay on the real Rms) in std and no_std builds + bounded-exhaustive DFS over non-dyadic histories",
-         "All reachable (first, window, running-sum) states of the real Rms detector over exact dyadic alphabets, window N=1..3 (quick) / 1..4 (thorough), five frame formats, both build configurations; every next/next_squared/current/reset from every state against the exact mean of the last N squares and exact internal-state invariants. Non-dyadic inputs: every history to depth 2N+2 plus labelled long runs; the signal adaptor in the std build.",
+         "All reachable (first, window, running-sum) states of the real Rms detector over exact dyadic alphabets, window N=1..3 (quick) / 1..4 (thorough), five frame formats, both build configurations; every next/next_squared/current/reset from every state against the exact mean of the last N squares and exact internal-state invariants. Non-dyadic inputs: every history (with reset as an action) to depth 2N+2 plus labelled long runs; sample_sqrt over every non-negative finite f32 (thorough) in both builds; the signal adaptor in the std build.",
          "Inputs outside the alphabets are covered only to depth 2N+2 and by single long runs. Trusted: libm sqrt (std), f64 recomputation as reference, stateright BFS.", "DESIGN.md §4 C11"),
- "C15": (True, "E2", "exhaustive enumeration of operand pairs (all 2048^2 for the 11-bit types, boundary lattice squared for wider types) on the real operators in two build profiles against i128 modular arithmetic",
-         "Every operand pair of I11/U11 and every i16 for construction; documented boundary lattices for 20/24/48-bit types; all 35 widening From impls over their complete source domains; run in a release profile (wrap expected) and a debug-assertions profile (panic expected).",
-         "20/24/48-bit operand spaces are covered on a lattice, not completely. A build with debug assertions but without overflow checks is not explored. Trusted: rustc/LLVM, i128 arithmetic.", "DESIGN.md §4 C15"),
+ "C15": (True, "E2", "exhaustive enumeration of operand pairs (all 2048^2 for the 11-bit types, boundary lattice squared for wider types) on the real operators in all four (debug-assertions, overflow-checks) build profiles against i128 modular arithmetic",
+         "Every operand pair of I11/U11 and every i16 for construction; documented boundary lattices for 20/24/48-bit types; all 35 widening From impls over their complete source domains; run in four profiles: release and release+overflow-checks (wrap expected), debug-assertions with and without overflow checks (panic expected).",
+         "20/24/48-bit operand spaces are covered on a lattice, not completely. Trusted: rustc/LLVM, i128 arithmetic.", "DESIGN.md §4 C15"),
  "C20": (True, "E2", "exhaustive enumeration of (L, bin, hop) schedules and of f32 phases on the real window code against closed forms",
          "Every (L<=24/40, bin, hop) x 2 windows x 3 frame formats: chunk count, chunk contents and size_hint before every next(); Hann at every f32 phase in [0,1] (thorough) or a 2^21-pattern grid (quick) and on f64 grids; Window iterator for n up to 64/1024.",
          "L bounded; f64 phases on a grid. Trusted: libm cos.", "DESIGN.md §4 C20"),
@@ -36,21 +36,21 @@ T = {
  "C03": (True, "E2", "exhaustive enumeration of sample values x offset/gain alphabets (complete for 8/16-bit formats) and of frame widths 1..32 x 14 formats x every Frame method on the real code, against the reference arithmetic and per-channel sample application",
          "Identity laws over every value of the <=24-bit formats (thorough: <=32-bit), general add/mul laws over every 8/16-bit value x all offsets/gains of the alphabets (lattice above), bare-sample-as-frame laws; 448 frame instantiations x 9 contents x every Frame method with closure call order observed; release and overflow-checked builds.",
          "Values above 16/24 bits are covered on lattices; offsets/gains come from finite alphabets. Trusted: rustc/LLVM, hardware f32/f64 multiply, the reference conversions (C01/C02 references).", "DESIGN.md §4 C03"),
- "C04": (True, "E2", "bounded-exhaustive enumeration of adaptor programs (all trees to depth 2, all unary stacks to depth 3/4, 4 frame families) executed on the real adaptor structs against an AST interpreter with instrumented sources",
+ "C04": (True, "E2", "bounded-exhaustive enumeration of adaptor programs (all trees to depth 2, all unary stacks to depth 3/4, thorough: all depth-3 trees over a small alphabet; 6 frame families incl. [i32;2] and [i64;1] whose values do not fit the float companion's mantissa) executed on the real adaptor structs against an AST interpreter with instrumented sources",
          "Every program of the bounded space is built from the real dasp_signal adaptors and run for source length + delays + 3 calls; frames are compared with the pointwise interpreter, every instrumented source must have been pulled exactly once per call (never under a delay's leading silence), inspect must see exactly what passes, and programs over a borrowed source must leave it at the right frame after every prefix length.",
          "Depth and source length are bounded (depth 2 trees, stacks of 3/4, sources of <=3 frames); right operands of add_amp/mul_amp are unary stacks. Trusted: rustc/LLVM, the Frame operations (checked by C03) used pointwise by the interpreter, the forwarding wrapper.", "DESIGN.md §4 C04"),
  "C05": (True, "E2", "the same bounded-exhaustive program enumeration, with an exhaustion algebra in the interpreter (exhausted-after-T-calls per node) and exact-count oracles for until_exhausted, lift, take and interleaved output",
          "For every program: is_exhausted() before and after every next(), three further calls after exhaustion, until_exhausted()/lift() yielding exactly T frames and then None for good, interleaved output yielding exactly T x channels samples, take(n) for every n up to T+2; interleaved sources of every sample count 0..3N+1 (trailing partial frame dropped).",
          "Same bounds as C04. Trusted: rustc/LLVM, the interpreter's exhaustion algebra as stated in the property.", "DESIGN.md §4 C05"),
  "C12": (True, "E1", "stateless exhaustive exploration of every A/B pull interleaving up to a length bound on the real Fork (fresh object per history, no state merging) + explicit-state stateright BFS to fixpoint on (lead, ring phase) via witness replay",
-         "Every in-boundary interleaving of length 16 (quick) / 20 (thorough) for capacities 1..4, every ring start offset, by_ref held / re-split every step / by_rc / by_ref-then-by_rc at every switch point; after every step: k-th frame of each branch, source pull count, both pending counts; fork() constructor panic on every non-empty ring.",
-         "Interleavings longer than the bound are covered only by the merged run, which relies on the fork depending on positions only through (lead, ring phase); capacities above 4 not explored. Trusted: rustc/LLVM, stateright BFS.", "DESIGN.md §4 C12"),
+         "Every in-boundary interleaving of length 16 (quick) / 20 (thorough) for capacities 1..4 (thorough 1..6), every ring start offset, by_ref held / re-split every step / by_rc / by_ref-then-by_rc at every switch point; after every step: k-th frame of each branch, source pull count, both pending counts; fork() constructor panic on every non-empty ring.",
+         "Interleavings longer than the bound are covered only by the merged run, which relies on the fork depending on positions only through (lead, ring phase); capacities above 6 not explored. Trusted: rustc/LLVM, stateright BFS.", "DESIGN.md §4 C12"),
  "C13": (True, "E1", "stateless exhaustive exploration of every send/next/drop history up to a depth bound on the real Bus (fresh object per history) + explicit-state stateright BFS to fixpoint on lag vectors via witness replay; backlog observed through a cfg-guarded hook",
          "Every history to depth 12 (quick) / 15 (thorough) with <=3 live outputs and <=4 sends over an infinite and a 3-frame instrumented source: frames per output, attach index, pending counts, source pulls, backlog length == slowest lag (hook), is_exhausted; merged run with unbounded sends and lags <=4.",
          "Depth, live-output and lag bounds as stated; the merged run relies on the bus using only relative offsets. Trusted: rustc/LLVM, stateright BFS, the additive hook Bus::verif_backlog_len.", "DESIGN.md §4 C13"),
  "C14": (True, "E1", "stateless exhaustive exploration of every next/next_frames(k)/is_exhausted history from every (capacity, prefill, start offset, source length) initial state on the real Buffered + explicit-state stateright BFS to fixpoint via witness replay",
-         "340 initial states (capacity 1..4 x every (start,len) prefill x source length 0..2cap+1); every history to depth 5 (quick) / 7 (thorough); merged BFS on (ring start, ring len, pulled, delivered) to fixpoint; until_exhausted() from every initial state; oracle: prefill ++ source ++ equilibrium, pulls in units of capacity only on empty, exact exhaustion flag.",
-         "Capacities above 4 and sources longer than 2cap+1 are not explored. Trusted: rustc/LLVM, stateright BFS.", "DESIGN.md §4 C14"),
+         "340 initial states in quick (capacity 1..4; thorough 1..5) x every (start,len) prefill x source length 0..2cap+1; every history to depth 5 (quick) / 7 (thorough); merged BFS on (ring start, ring len, pulled, delivered) to fixpoint; until_exhausted() from every initial state; oracle: prefill ++ source ++ equilibrium, pulls in units of capacity only on empty, exact exhaustion flag.",
+         "Capacities above 5 and sources longer than 2cap+1 are not explored. Trusted: rustc/LLVM, stateright BFS.", "DESIGN.md §4 C14"),
  "C08": (True, "E2", "exhaustive enumeration of ratio histories (every per-frame ratio sequence over 4-letter alphabets to length 5/6, 21 constant ratios x every constructor, every setter switch point) x source lengths x interpolators x frame formats on the real Converter with an instrumented source, against exact rational positions",
          "For every configuration of the finite space the converter is run to exhaustion + 3: source pulls must equal floor(P_n) with P_n an exact rational (i128 x 2^-100), floor output = frame at the pulled index, linear output = exact blend within 4 ulp / 1 LSB and inside the two frames' interval, ratio 1 exact, is_exhausted() before every output, output counts for constant ratios; non-positive scale panics; labelled long runs for non-dyadic ratios.",
          "Ratios come from finite alphabets (dyadic ones are checked exactly, others with a float tolerance of n*2^-50); sources of <=8 frames. Trusted: rustc/LLVM, IEEE division for mirrored ratio arithmetic.", "DESIGN.md §4 C08"),
@@ -64,7 +64,7 @@ T = {
          "Depths 1..8 (thorough 1..16, 32, 50), three frame formats: ratio-1 transparency through the Converter for every source over the alphabet up to length 4/5 plus impulse/step/ramp; linearity and scaling at 8/16 positions and every priming level for every history to length 3/5; finiteness; constant reproduction within 1% at 256 positions; reset followed by every continuation of length 3 equals a fresh interpolator.",
          "Finite grids of depth, position and amplitude. Trusted: rustc/LLVM; libm sin/cos are inside both sides of the linearity comparison.", "DESIGN.md §4 C18"),
  "C19": (True, "E2", "exhaustive sweeps of the rectifiers over every value of the <=24-bit formats (thorough <=32-bit and every f32) and exhaustive enumeration of follower histories (inputs and setter calls) to depth 4/5 over 17 detector families x 36 time-constant pairs on the real Detector",
-         "Rectifier functions and structs on bare samples and frames against |amplitude| / clamp references; follower: every history over next(5 letters)/set_attack(3)/set_release(3), each output checked against the one-pole formula evaluated from the observed previous output and the detected value, betweenness, zero-time exactness, monotone convergence on constant input, detect_envelope adaptor equivalence.",
+         "Rectifier functions and structs on bare samples and frames against |amplitude| / clamp references; follower: every history over next(5 letters)/set_attack(3)/set_release(3), each output checked against the one-pole formula evaluated from the observed previous output and the detected value, betweenness, zero-time exactness, monotone convergence on constant input, detect_envelope adaptor (and setters) equivalence, every Detector convenience constructor == Detector::new.",
          "Follower inputs and time constants come from finite alphabets; integer alphabets exclude the format minimum. Trusted: rustc/LLVM, f64 exp for the gain, the real detect component as source of the detected value.", "DESIGN.md §4 C19"),
  "C07": (True, "E2", "bounded-exhaustive audit: every transition of the enumerated drivers (all depth<=2 adaptor programs, every ring-buffer raw state, component pipelines, every digraph on <=4 nodes with stock nodes) is executed on the real code between two samples of a counting global allocator",
          "Allocator events (alloc + realloc + free, thread-local counters, self-tested) must be zero inside every bracket: each next()/is_exhausted()/iterator step of every adaptor tree of C04's quick space in 4 frame families, every Bounded/Fixed operation from every raw state (array, Vec, Box storage), sample/frame/slice/rectifier/RMS/envelope/interpolator/converter/window/oscillator operations, buffered, fork by_ref (by_rc after creation), 2nd/3rd process call on every digraph with <=3 nodes and (thorough: all, quick: every 7th) 4-node digraph with stock nodes; bus backlog bounded when pulled in step.",
